@@ -94,8 +94,18 @@ def process(ctx: Ctx, cases: list[dict]) -> None:
                 if pre:
                     import json as _json
                     target.write_text(_json.dumps(dec(pre), indent=2))
+                kept = []          # the dict objects handed to earlier writes: the caller goes on using (and changing) them
                 for step, (mode, d) in enumerate(seq):
                     reset_globals()
+                    for obj in kept:
+                        for v in list(obj.values()):
+                            if isinstance(v, dict):
+                                v[f"changed_later_{step}"] = step
+                                for kk in list(v):
+                                    if isinstance(v[kk], (int, str)) and not isinstance(v[kk], bool) and not kk.startswith("changed_later"):
+                                        v[kk] = f"changed{step}"
+                            elif isinstance(v, list):
+                                v.append(f"changed_later_{step}")
                     via = (c.get("via") or [])[step] if step < len(c.get("via") or []) else "dict"
                     if via == "proxy" and not (mode == "a" and target.exists()):
                         via = "dict"          # read-only mappings are exercised where the library merges them (append onto a file)
@@ -105,6 +115,8 @@ def process(ctx: Ctx, cases: list[dict]) -> None:
                         src.dump() if getattr(src, "source_file", None) is not None else src.dump(target)
                     else:
                         DictWriter.write(src, target, mode=mode)
+                        if via == "dict" and isinstance(src, dict):
+                            kept.append(src)
                     if fmt != "json":
                         texts.append(target.read_text())
                     reset_globals()
@@ -154,6 +166,10 @@ def run(ctx: Ctx) -> None:
     rng = ctx.rng
     cases = []
     for e in getattr(ctx, "fixed_witnesses", []):
+        if isinstance(e.get("witness"), dict) and e["witness"].get("kind") == "api":
+            from props import api as _api          # a history of API calls kept from a seeded change
+            _api.process(ctx, [e["witness"]], oracles=True); ctx.corpus_cases += 1
+            continue
         cases.append(e["witness"]); ctx.corpus_cases += 1
     for fmt in ("native", "foam", "json"):
         cases.append({"kind": "seq", "fmt": fmt, "seq": [["w", enc({"k": 'x "b"' if fmt != "foam" else "x b", "n": {"p": 1}})], ["a", enc({"k": 2, "n": {"q": 2}, "z": "'"})]]})
